@@ -8,7 +8,7 @@ META = dict(
           "every tree reached by trees(), reversed, at(x) at left/mid/nextafter(right), at_index, first/last and by one reused Tree object swept forward, off the end, backward and re-positioned with first()/last() is "
           "compared view-by-view with {child: parent} computed from the edge rows. A case is distinct by the sha1 "
           "of its full row tuples and non-trivial when it has at least one edge."),
-    REQUIRED=["check_tree:trees()", "check_tree:at", "check_tree:reused-tree", "edge_diffs"],
+    REQUIRED=["check_tree:trees()", "check_tree:at", "check_tree:reused-tree", "check_tree:copy", "check_tree:aslist", "edge_diffs"],
     ASSUMPTIONS=ASSUME_COMMON,
     BUDGET={"quick": 45.0, "thorough": 900.0},
 )
